@@ -152,7 +152,8 @@ def gen_recipe(rng: random.Random, tier: str = "quick") -> dict:
     return {"flavor": flavor, "members": members, "area": area, "gaps": gaps, "align": align, "garbage": gapmode == "garbage",
             "gseed": rng.randrange(256), "padgarbage": rng.random() < 0.3, "eof": rng.choice([2, 2, 2, 2, 1, 3, 5, 18]),
             "tail": rng.choice([0, 0, 0, 1, 511, 512, 1024, 4096, 9000]), "tailalign": rng.choice([1, 1, 512, 4096, 10240]),
-            "tailgarbage": rng.random() < 0.3, "huge": huge, "gz": (not huge) and rng.random() < 0.15}
+            "tailgarbage": rng.random() < 0.3, "huge": huge, "gz": (not huge) and rng.random() < 0.15,
+            "gzcuts": rng.choice([[], [], [0.5], [0.3, 0.6], [0.05, 0.9]])}
 
 
 # --------------------------------------------------------------------------- writer
@@ -275,7 +276,10 @@ def build(recipe: dict) -> dict:
     if pos <= (64 << 20):
         data = im.read_at(0, pos) if pos else b""
         if recipe["gz"]:
-            data = gzip.compress(data, 6, mtime=0)
+            # a gzip file may consist of several members (RFC 1952: concatenated members are one stream)
+            cuts = sorted({int(len(data) * f) for f in recipe.get("gzcuts", [])} - {0, len(data)})
+            parts = [data[a:b] for a, b in zip([0] + cuts, cuts + [len(data)])]
+            data = b"".join(gzip.compress(p_, 6, mtime=0) for p_ in parts)
     return {"data": data, "image": im, "size": pos, "plain": not any(m["visor"] for m in ms), "gz": bool(recipe["gz"]) and data is not None,
             "edges": sorted({m["edge"] for m in ms if m.get("edge")}), "members": truth}
 
